@@ -644,6 +644,12 @@ theorem step_inv {n : Nat} {σ : St} {s : Sid} (a : Act) (hI : Inv n σ) (hs : s
   | commit => exact inv_commitSess true hI
   | commitMid => exact inv_commitSess false hI
   | rollback => exact inv_fail s hI
+  | begin =>
+    dsimp only
+    cases hE : ensureTxn n σ s with
+    | blocked σ' => rw [hE] at hb; exact hb.1
+    | busy σ' => rw [hE] at hb; exact hb.1
+    | ok σ' => rw [hE] at hb; exact hb.1
 
 /-- frame: a step of session `t` (not inside a transaction) leaves the bookkeeping of every other session alone -/
 theorem step_frame {n : Nat} {σ : St} {s t : Sid} (a : Act) (hts : t ≠ s) (htin : (σ.sess t).inTxn = false) :
@@ -724,6 +730,12 @@ theorem step_frame {n : Nat} {σ : St} {s t : Sid} (a : Act) (hts : t ≠ s) (ht
     | commit => dsimp only; unfold commitSess; dsimp only; rw [if_neg (by simp [htin])]; simp [upd, hts.symm]
     | commitMid => dsimp only; unfold commitSess; dsimp only; rw [if_neg (by simp [htin])]; simp [upd, hts.symm]
     | rollback => dsimp only; rw [hfail]
+    | begin =>
+      dsimp only
+      cases hE : ensureTxn n σ t with
+      | blocked τ => rw [hE] at hE3; exact hE3
+      | busy τ => rw [hE] at hE3; exact hE3
+      | ok τ => rw [hE] at hE3; exact hE3
 
 /-- `unguarded` is raised by exactly one kind of step: `commit()` in the middle of a session without optimistic checks -/
 theorem step_unguarded {n : Nat} {σ : St} {t : Sid} (a : Act) :
@@ -816,6 +828,12 @@ theorem step_unguarded {n : Nat} {σ : St} {t : Sid} (a : Act) :
   | rollback =>
     simp only [reduceCtorEq, decide_false, Bool.false_and, Bool.or_false]
     rfl
+  | begin =>
+    simp only [reduceCtorEq, decide_false, Bool.false_and, Bool.or_false]
+    cases hE : ensureTxn n σ t with
+    | blocked τ => rw [hE] at hE3; exact hE3
+    | busy τ => rw [hE] at hE3; exact hE3
+    | ok τ => rw [hE] at hE3; exact hE3
 
 theorem run_inv {n : Nat} (sched : List (Sid × Act)) : ∀ (σ : St), Inv n σ → (∀ p ∈ sched, p.1 < n) → Inv n (run n σ sched) := by
   induction sched with
